@@ -150,6 +150,19 @@ func opGcs(_ *HState, a Event) Event {
 	e := with(a)
 	delete(e, "items") // the specification reads the hashes, not the raw items
 	delete(e, "qitems")
+	snapshot := func() [][]byte {
+		var cp [][]byte
+		for _, it := range items {
+			cp = append(cp, append([]byte{}, it...))
+		}
+		for _, q := range queries {
+			for _, it := range q {
+				cp = append(cp, append([]byte{}, it...))
+			}
+		}
+		return cp
+	}
+	before := snapshot()
 	pp, msg, hung := guardT(120*time.Second, func() {
 		f, err := gcs.BuildGCSFilter(p, m, key, items)
 		if err != nil {
@@ -158,6 +171,13 @@ func opGcs(_ *HState, a Event) Event {
 		}
 		describeFilter(e, f, key, p, m, items, queries)
 	})
+	after := snapshot()
+	e["argmod"] = false
+	for i := range before {
+		if !bytes.Equal(before[i], after[i]) {
+			e["argmod"] = true
+		}
+	}
 	if hung {
 		pp, msg = true, "GCS build/query did not return within 120s (hang)"
 	}
